@@ -344,7 +344,47 @@ pub fn partial_cmp_clamp(a: u64, b: u64, c: u64) -> i128 {
     }
 }
 
+// ---------------------------------------------------------------- discriminants given by named constants, iter::from_fn paging
+const RECEIVE_ID: u64 = 1337;
+const ACK_FAILURE_ID: u64 = 0xfa17;
+
+#[repr(u64)]
+#[derive(Clone, Copy)]
+enum Payout {
+    Receive = RECEIVE_ID,
+    AckFailure = ACK_FAILURE_ID,
+    Next,
+}
+
+#[inline(never)]
+pub fn const_discriminants(a: u64, b: u64, _c: u64) -> i128 {
+    let k = match a % 3 {
+        0 => Payout::Receive,
+        1 => Payout::AckFailure,
+        _ => Payout::Next,
+    };
+    let id = k as u64;
+    (id as i128) * 10 + (id == RECEIVE_ID) as i128 + (b % 2) as i128 * 2
+}
+
+#[inline(never)]
+pub fn from_fn_page_cutoff(a: u64, b: u64, c: u64) -> i128 {
+    let all = [a % 9, b % 9, c % 9, (a + c) % 9, 4];
+    let mut left = (b % 7) as usize;
+    let mut range = all.iter();
+    let page: Vec<u64> = std::iter::from_fn(|| {
+        left = left.checked_sub(1)?;
+        range.next().copied()
+    })
+    .collect();
+    let untouched = range.count();
+    let via_zip: Vec<u64> = (0..(c % 4)).zip(all.iter()).map(|(_, v)| *v).collect();
+    let once_sum: u64 = std::iter::once(a % 5).chain(std::iter::repeat(1).take((b % 3) as usize)).sum();
+    page.iter().fold(0i128, |acc, v| acc * 10 + *v as i128) * 10000 + untouched as i128 * 1000 + via_zip.len() as i128 * 100 + once_sum as i128
+}
+
 crate::cases!(extras:
+    const_discriminants, from_fn_page_cutoff,
     marker_generic_dispatch, marker_generic_nested, dyn_legs_try_for_each, bool_then_chains,
     then_transpose_lazy_division, while_let_slice_rest, loop_match_slice_is_admin, let_else_labeled_continue,
     fn_pointer_params, from_tuple_for_enum, be_bytes_prefix_key, zip_attributes_and_from_fn,
